@@ -22,14 +22,14 @@ pub fn fn_items(v: &Value) -> Vec<(u64, &Value)> {
 
 #[derive(Clone, Copy)]
 pub struct Scale {
-    /// seconds per model time unit
-    pub unit_s: u64,
+    /// milliseconds per model time unit (1 800 000 for F = 2 ... 4 for F = 900 000, the stamp's own resolution)
+    pub unit_ms: u64,
 }
 
 impl Scale {
     pub fn from_f(f: u64) -> Self {
-        assert!(3600 % f == 0);
-        Self { unit_s: 3600 / f }
+        assert!(3_600_000 % f == 0 && (3_600_000 / f) % 4 == 0);
+        Self { unit_ms: 3_600_000 / f }
     }
 
     /// model stamp `[t, c, n]` -> real stamp; `[]` -> None
@@ -39,7 +39,7 @@ impl Scale {
             return None;
         }
         Some(HLCTimestamp::new(
-            Duration::from_secs(a[0].as_u64().unwrap() * self.unit_s),
+            Duration::from_millis(a[0].as_u64().unwrap() * self.unit_ms),
             a[1].as_u64().unwrap() as u16,
             a[2].as_u64().unwrap() as u8,
         ))
@@ -49,7 +49,7 @@ impl Scale {
     /// values are rendered as fractions of a unit in milliseconds)
     pub fn ts_json(&self, ts: &HLCTimestamp) -> Value {
         let ms = ts.datacake_timestamp().as_millis() as u64;
-        let unit_ms = self.unit_s * 1000;
+        let unit_ms = self.unit_ms;
         if ms % unit_ms == 0 {
             json!([ms / unit_ms, ts.counter(), ts.node()])
         } else {
